@@ -104,6 +104,47 @@ def run(tier, seed):
 
         vlib.differential(rep, binary, cases, sdir, "cnt", canon=canon, oracle=oracle,
                           nontrivial=lambda c, i: " M2M " in i and int(c.split()[7]) >= 2, clause=lambda c: "cnt:d%s:split%s" % (c.split()[1], c.split()[7]))
+        # target/source executor with the counter kernel (TbfInteractionCounter::P2PTsm, D10): counters = those of the model
+        # (theorem tsm_counts_spec), both merge orders, wrapped results unchanged (every target = sum over all sources)
+        from checks import c09
+        tcases = []
+        for b in c09.gen_cases("quick", rng)[: (60 if tier == "quick" else 600)]:
+            f = b.split()
+            if int(f[1]) > 3: continue
+            masks = rng.choice([[63], [62, 1], [6, 8, 48, 1], [2, 4, 8, 16, 32, 1]])
+            nf = int(f[7])
+            tcases.append("execcnttsm " + " ".join(f[1:7]) + " %d %s " % (len(masks), " ".join(map(str, masks))) + " ".join(f[8 + nf:]))
+
+        def tcanon(c, line):
+            if line.startswith(("ABORT", "MODEL", "?")):
+                return line
+            p = line.split(" || ")
+            calls = [A.parse_call(x) for x in A.split_trace(p[2])]
+            return (p[0], p[1], sorted(A.elementary(calls).items()), p[3], p[4], p[5])
+
+        def toracle(c, line):
+            p = line.split(" || ")
+            F = [int(x) for x in p[4].split()[1:]]; Bk = [int(x) for x in p[5].split()[1:]]
+            if F != Bk: return "merge order changes the counters: %s vs %s" % (F, Bk)
+            calls = [A.parse_call(x) for x in A.split_trace(p[2])]
+            el = A.elementary(calls)
+            tr = [sum(v for k, v in el.items() if k[0] == "P2M"), sum(v for k, v in el.items() if k[0] == "M2M"),
+                  sum(v for k, v in el.items() if k[0] == "M2L"), sum(v for k, v in el.items() if k[0] == "L2L"),
+                  sum(v for k, v in el.items() if k[0] == "L2P"),
+                  sum(v * len(k[5]) * len(k[6]) for k, v in el.items() if k[0] == "P2PTsm"), 0]
+            if tr != F: return "counters %s differ from the calls actually made %s" % (F, tr)
+            t = c.split(); nf = int(t[7])
+            S, Tg, stop, flags = c09.parse_case("exectsm " + " ".join(t[1:7]) + " 1 63 " + " ".join(t[8 + nf:]))
+            if max(0, stop) <= 2:
+                R = {}
+                for tok in p[6].split()[1:]:
+                    k, v = tok.split("="); R[int(k)] = int(v)
+                tot = sum(A.weight(q) for q in range(S.N)) & A.M64
+                for q in range(Tg.N):
+                    if R.get(q) != tot: return "wrapping the kernel changed the results: target %d has %s" % (q, R.get(q))
+            return None
+        vlib.differential(rep, binary, tcases, sdir, "cnttsm", canon=tcanon, oracle=toracle, nontrivial=lambda c, i: " P2PTsm " in i and " M2L " in i,
+                          clause=lambda c: "cnttsm:d%s" % c.split()[1])
         # the real per-worker partition: the task executors (OpenMP, Specx, StarPU on the mock runtimes of C03) with one counter
         # kernel per worker under seeded schedules; merged counters must be those of the sequential model
         from checks import c03
